@@ -44,13 +44,13 @@ def plan(tier, seed):
     specs = []
     for fam in families.FAMILY_NAMES:
         specs.append(dict(label=fam, family=fam, seed=seed, tier=tier,
-                          variant='mon', passes=5 if q else 30,
-                          timeout=900 if q else 3000))
+                          variant='mon', passes=5 if q else 150,
+                          timeout=900 if q else 7200))
     if not q:
         for fam in families.FAMILY_NAMES:
             specs.append(dict(label=fam + '-asan', family=fam, seed=seed + 1,
                               tier=tier, variant='asan', passes=1,
-                              timeout=3000))
+                              timeout=7200))
     return specs
 
 
